@@ -362,7 +362,9 @@ func checkC10(r *Result) {
 			if len(rel.Args) != 2 {
 				return false, true
 			}
-			isLen := func(t *Term) bool { return strings.HasPrefix(t.Op, "len") || t.Contains("len") && !t.Contains("MaxSelectors") }
+			isLen := func(t *Term) bool {
+				return strings.HasPrefix(t.Op, "len") || t.Contains("len") && !t.Contains("MaxSelectors")
+			}
 			isCap := func(t *Term) bool { return t.Contains("Params.MaxSelectors") }
 			a, b := rel.Args[0], rel.Args[1]
 			switch {
